@@ -29,7 +29,7 @@ import schedula as sh
 from ..ranges import Ranges
 from ..errors import InvalidRangeName
 from ..cell import Cell, RangesAssembler, Ref, CellWrapper, InvRangesAssembler
-from ..tokens.operand import XlError, _re_sheet_id, _re_build_id
+from ..tokens.operand import XlError, Error, _re_sheet_id, _re_build_id
 from ..functions.text import HexValue
 from ..functions import COMPILING
 
@@ -93,6 +93,12 @@ def _file2books(*fpaths):
     return {osp.relpath(fp, d).upper().replace('\\', '/'): _book2dict(
         load_workbook(fp, data_only=True)
     ) for fp in fpaths}
+
+
+def _is_error_constant(cell):
+    func = getattr(cell, 'func', None)
+    return func is not None and not cell.inputs and \
+        getattr(func, '__name__', '')[1:].upper() in Error.errors
 
 
 class ExcelModel:
@@ -306,7 +312,9 @@ class ExcelModel:
     def add_cell(self, cell, context, formula_ranges):
         if cell.output in self.cells:
             return
-        if cell.value is not sh.EMPTY:
+        if cell.value is not sh.EMPTY or _is_error_constant(cell):
+            # A value (or error value) stored inside the range of an array
+            # formula is the cached result of that formula.
             if any(not (cell.range - rng).ranges for rng in formula_ranges):
                 return
 
